@@ -54,9 +54,39 @@ PROBE_NS = {
 }
 
 
-def real_environment(tmp: pathlib.Path):
+# option variations of the html target under which the escaping decision must not change
+VARIANTS = [
+    ("default", {}),
+    ("ext=.xhtml", {"extension": ".xhtml"}),
+    ("ext=.txt", {"extension": ".txt"}),
+    ("ext=.HTML", {"extension": ".HTML"}),
+    ("ext=.htm", {"extension": ".htm"}),
+    ("ext=.php", {"extension": ".php"}),
+    ("ext=(empty)", {"extension": ""}),
+    ("stem=Overview", {"stem": "Overview"}),
+    ("ext=.xhtml,stem=toc", {"extension": ".xhtml", "stem": "toc"}),
+    ("config:extension=.shtml", {"config": "nunavut.lang.html:\n  extension: .shtml\n"}),
+    ("config:stem=main", {"config": "nunavut.lang.html:\n  namespace_file_stem: main\n"}),
+]
+PROBE_NAMES = ["Namespace.j2", "type_info.j2", "namespace_info.j2", "type_base.j2", "sidebar.j2", "custom.j2", None]
+
+
+def language_context(language="html", extension=None, stem=None, config=None, tmp=None):
+    from nunavut.lang import LanguageContextBuilder, Language
+    b = LanguageContextBuilder(include_experimental_languages=True).set_target_language(language)
+    if extension is not None:
+        b.set_target_language_extension(extension)
+    if stem is not None:
+        b.set_target_language_configuration_override(Language.WKCV_NAMESPACE_FILE_STEM, stem)
+    if config is not None:
+        cf = pathlib.Path(tmp) / ("cfg_%d.yaml" % (abs(hash(config)) % 10**8))
+        cf.write_text(config)
+        b.add_config_files(cf)
+    return b.create()
+
+
+def real_environment(tmp: pathlib.Path, language="html", **opts):
     """-> (generator, env, namespace, type_map) for a probe namespace, built the way nunavut.generate_types does."""
-    from nunavut.lang import LanguageContextBuilder
     from nunavut._generators import create_default_generators
     from nunavut import build_namespace_tree
     from pydsdl import read_namespace
@@ -64,11 +94,29 @@ def real_environment(tmp: pathlib.Path):
         p = tmp / rel
         p.parent.mkdir(parents=True, exist_ok=True)
         p.write_text(text)
-    lctx = LanguageContextBuilder(include_experimental_languages=True).set_target_language("html").create()
+    lctx = language_context(language, tmp=tmp, **opts)
     type_map = read_namespace(str(tmp / "probe"), [])
     ns = build_namespace_tree(type_map, str(tmp / "probe"), str(tmp / "out"), lctx)
     gen, _ = create_default_generators(ns)
     return gen, gen._env, ns, type_map  # pylint: disable=protected-access
+
+
+def escaping_decisions(tmp: pathlib.Path):
+    """The REAL autoescape answer of the environment built for each option variation of the html target (and, as a
+    control of the file-name rule, of the c target): rows (language, variant, template name or None, answer)."""
+    rows = []
+    for vname, opts in VARIANTS:
+        try:
+            _g, env, _n, _t = real_environment(tmp, "html", **opts)
+        except Exception as e:  # an option combination the tree rejects is not a rendering environment
+            rows.append(("html", vname + " [rejected: %s]" % type(e).__name__, None, None))
+            continue
+        for n in PROBE_NAMES:
+            rows.append(("html", vname, n, autoescape_of(env, n)))
+    _g, env, _n, _t = real_environment(tmp, "c")
+    for n in ["a.j2", "page.html", "x.XML", "d.json", "e.htm", "f.txt", None]:
+        rows.append(("c", "default", n, autoescape_of(env, n)))
+    return rows
 
 
 def autoescape_of(env, name):
@@ -437,8 +485,9 @@ def js_string_state(src):
 # the walk
 # ----------------------------------------------------------------------------------------------------------------
 class Translator:
-    def __init__(self, gen, env, ns, type_map):
+    def __init__(self, gen, env, ns, type_map, variant_envs=()):
         from nunavut.jinja.jinja2 import nodes
+        self.variant_envs = list(variant_envs)
         self.N = nodes
         self.gen, self.env = gen, env
         self.filter_markup = probe_filter_markup(env, ns, type_map)
@@ -461,7 +510,8 @@ class Translator:
         if name not in self.asts:
             src, _fn, _ = self.env.loader.get_source(self.env, name)
             self.asts[name] = self.env.parse(src, name)
-            self.autoescape[name] = autoescape_of(self.env, name)
+            # the escaping decision must hold under every option variation of the html target
+            self.autoescape[name] = all(autoescape_of(e, name) for e in [self.env] + self.variant_envs)
             for m in self.asts[name].find_all(self.N.Macro):
                 key = (name, m.name)
                 self.macros[key] = m
@@ -946,11 +996,19 @@ def translate():
         if not need <= set(kinds):
             raise Untranslatable(f"probe namespace does not cover all kinds: {sorted(kinds)}")
         del pydsdl
-        tr = Translator(gen, env, ns, type_map)
+        variant_envs = []
+        for _vn, opts in VARIANTS[1:]:
+            try:
+                variant_envs.append(real_environment(pathlib.Path(d), "html", **opts)[1])
+            except Exception:
+                pass
+        decisions = escaping_decisions(pathlib.Path(d))
+        tr = Translator(gen, env, ns, type_map, variant_envs)
         root_terms, macro_terms = tr.run(sorted(roots))
         model = {
             "repo": str(REPO),
             "autoescape": dict(sorted(tr.autoescape.items())),
+            "escaping_decisions": [list(r) for r in decisions],
             "kind_to_template": dict(sorted(kinds.items())),
             "filter_returns_markup": tr.filter_markup,
             "leaves": tr.leaves,
@@ -994,6 +1052,11 @@ def render_lean(model, root_terms, macro_terms, tr, tags):
     L.append("/-- answer of the environment's real `autoescape` setting for each loaded template name -/")
     L.append("def autoescapeTable : List (String × Bool) := [" + ", ".join(
         f"({lean_str(k)}, {'true' if v else 'false'})" for k, v in model["autoescape"].items()) + "]")
+    L.append("")
+    L.append("/-- the environment's real autoescape answer under option variations: (target language, variation, template name, answer) -/")
+    L.append("def escapingDecisions : List (String × String × Option String × Bool) := [")
+    L.append(",\n".join(f"  ({lean_str(r[0])}, {lean_str(r[1])}, {'none' if r[2] is None else 'some ' + lean_str(r[2])}, "
+                        f"{'true' if r[3] else 'false'})" for r in model["escaping_decisions"] if r[3] is not None) + "]")
     L.append("")
     L.append("def filterReturnsMarkup : List (String × Bool) := [" + ", ".join(
         f"({lean_str(k)}, {'true' if v else 'false'})" for k, v in sorted(model["filter_returns_markup"].items())) + "]")
